@@ -81,6 +81,9 @@ def run(v, O):
            ('q/c', O.eq(base(O, A / v.c) * v.c, v.a * f, 1e-9)), ('c/q', O.eq(base(O, v.c / A) * v.a * f, v.c, 1e-9)),
            ('q*c units', O.same((A * v.c).units(), A.units())), ('c/q exponents', O.same(lib_exps(v.c / A), {k: -e for k, e in lib_exps(A).items()})),
            ('neg value', O.eq((-A).value(), -v.a)), ('neg units', O.same((-A).units(), A.units()))]
+    N = Quantity(v.a, v.u)
+    out += [('q+(-q) is zero', O.eq((N + (-N)).value(), 0, 1e-9)), ('q-(-q) is 2q', O.eq((N - (-N)).value(), 2 * v.a, 1e-9)),
+            ('q*(-q) is -(q*q)', O.eq(base(O, N * (-N)), -(v.a * f) * (v.a * f), 1e-9)), ('q read after -q', O.eq(N.value(), v.a))]
     if v.nodim:
         out += [('q+c', O.eq(base(O, A + v.c), v.a * f + v.c, 1e-9)), ('c+q', O.eq(base(O, v.c + A), v.a * f + v.c, 1e-9)),
                 ('q-c', O.eq(base(O, A - v.c), v.a * f - v.c, 1e-9)), ('c-q', O.eq(base(O, v.c - A), v.c - v.a * f, 1e-9)),
